@@ -138,6 +138,7 @@ def main():
         'longest_document_chars': max(r['maxlen'] for r in results),
         'hypothesis_runs': len(results), 'examples_per_run': examples,
         'examples_per_hour': int(tot['examples'] / wall * 3600),
+        'simulated_time': 'not applicable: the writer has no clock, I/O or concurrency; the simulated party is the caller',
         'fault_kinds': {'exception raised by the writing code inside open tagcontext bodies': tot['raises']},
         'real_components': ['giscanner/xmlwriter.py (XMLWriter, build_xml_tag, collect_attributes)', 'xml.sax.saxutils.escape/quoteattr'],
         'stub_components': ['the caller (seeded driver that raises and catches)'],
